@@ -66,10 +66,9 @@ Section Mice.
         Ok ((if i =? 0 then [] else p) ++ rec ++ rest)
     end.
 
-  (* Encode(w, buf, recordSize): (bytes written, digest header value).
-     recordSize = 0 is an integer division by zero. *)
+  (* Encode(w, buf, recordSize): (bytes written, digest header value). *)
   Definition encode (d : draft) (rs : N) (buf : bytes) : R (bytes * bytes) :=
-    if rs =? 0 then Panic
+    if rs =? 0 then Err                  (* recordSize <= 0: "mice: invalid record size" *)
     else
       let len := lenN buf in
       let n0 := (len + rs - 1) / rs in
